@@ -7,6 +7,7 @@
    for admissibility.  `mode` (any subset of Devs, fixed for the whole trace) is the set of named
    deviations the code under test exhibits; `dev` collects those that actually changed a result. *)
 EXTENDS BitswapEngine
+CONSTANT AllModes   \* TRUE: start in every subset of Devs; FALSE: only {} (ideal code) and Devs (code as built)
 
 Trace == ndJsonDeserialize("trace.ndjson")
 VARIABLES l,      \* next trace index
@@ -25,7 +26,7 @@ ViewSet(L, G) == {<<c, L[c].prio, L[c].wt>> : c \in Dom(L)} \cup {<<c, G[c].prio
 WlOK(p)   == PerPeer(Ev.wl, p) = ViewSet(ledger'[p], ghost'[p])
 PendOK(p) == PerPeer(Ev.pend, p) = QDom(q'[p])
 
-TInit == /\ l = 1 /\ mode \in SUBSET Devs
+TInit == /\ l = 1 /\ mode \in (IF AllModes THEN SUBSET Devs ELSE {{}, Devs})
          /\ cfg = [limit |-> 1, replace |-> FALSE, sdh |-> TRUE, deny |-> [p \in Peers |-> {}],
                    ignored |-> {}, big |-> {}]
          /\ bs = {}
